@@ -255,6 +255,7 @@ theorem C08_closed_absorbing_step (s : AState) (op : Op) (c : ClosedQuiet s) (ho
   | restart feeOk f =>
     simp only [step, ha]
     exact closedQuiet_same (resume_closed _ a _ _ _ _ hst) (closedQuiet_of _ a rfl hst hq)
+  | flush => exact closedQuiet_of _ a ha hst hq
 
 /-- **C08 / closed is absorbing**, all histories -/
 theorem C08_closed_absorbing (s : AState) (ops : List Op) (c : ClosedQuiet s)
